@@ -61,7 +61,7 @@ Proof. vm_compute. repeat split; reflexivity. Qed.
 (* ---- audit addition (agent-c19, audit/props_C12_C15.md): C14_nonvacuous checks the excess on the listed nodes only and states
    neither connectivity nor NoDup; here EVERY hypothesis of C14_single_walk_uses_every_edge_exactly / C14_multiplicities holds:
    0 -> 1 once, the loop 1 -> 1 twice, 1 -> 2 once; the reconstruction returns 0,1,1,1,2 *)
-From FP Require Import AuditExamples.
+From FP Require Import AuditExamples12.
 Example C14_all_hypotheses_satisfiable :
   let g0 := residual_q au_es in
   NoDup (map fst au_es) /\ 0%N <> 2%N /\ exc g0 0%N = 1%Z /\ exc g0 2%N = (-1)%Z /\
